@@ -214,6 +214,11 @@ def isMipSatisfiable (lp : SatOracle) : Nat → Node → Option (Option Pt)
         | some (some q) => some (some q)                                -- :2342
         | some none => isMipSatisfiable lp fuel (N.addRow (branchGe i (ceilQ (coord p i))))   -- :2353
 
+/-- the MIP case of `MIP_Problem::is_satisfiable` (:276): the result of the first
+    `relaxed.lp.is_lp_satisfiable()` is not used, `is_mip_satisfiable` asks again (the answer is cached
+    in `status`) -/
+def isSatisfiableTop (lp : SatOracle) (fuel : Nat) (N : Node) : Option (Option Pt) := isMipSatisfiable lp fuel N
+
 /-! ### a reference LP oracle (verified answers, searched points) -/
 
 /-- candidate points of `cs`: optimal vertices for a few objectives (untrusted, checked by the caller) -/
